@@ -10,7 +10,7 @@ import random
 import subprocess
 import sys
 
-from .. import canon, corpus
+from .. import blockdev, canon, corpus
 from .. import kernel as K
 
 ID = "C06"
@@ -56,34 +56,15 @@ OBS = ["full_text", "units_all", "units_partial", "unit_text", "unit_images", "u
 
 
 def _mutate(rng, data: bytes) -> tuple[bytes, list]:
-    ops = []
-    b = bytearray(data)
-    for _ in range(rng.choice([1, 1, 2])):
-        if not b:
-            break
-        kind = rng.choice(["flip", "zero", "trunc"])
-        if kind == "flip":
-            o = rng.randrange(len(b)); bit = rng.randrange(8)
-            b[o] ^= 1 << bit; ops.append(["flip", o, bit])
-        elif kind == "zero":
-            o = rng.randrange(len(b)); n = rng.choice([1, 4, 16])
-            b[o:o + n] = bytes(len(b[o:o + n])); ops.append(["zero", o, n])
-        else:
-            o = rng.randrange(max(1, len(b) // 2), len(b) + 1)
-            del b[o:]; ops.append(["trunc", o])
-    return bytes(b), ops
+    ops = blockdev.gen_ops(rng, data, corpus.splice_sources(), s2_bias=0.7)
+    return blockdev.apply_ops(data, ops, corpus.splice_sources()), ops
 
 
 def _apply(data: bytes, ops) -> bytes:
-    b = bytearray(data)
-    for op in ops:
-        if op[0] == "flip" and op[1] < len(b):
-            b[op[1]] ^= 1 << op[2]
-        elif op[0] == "zero":
-            b[op[1]:op[1] + op[2]] = bytes(len(b[op[1]:op[1] + op[2]]))
-        elif op[0] == "trunc":
-            del b[op[1]:]
-    return bytes(b)
+    return blockdev.apply_ops(data, ops, corpus.splice_sources()) if ops else data
+
+
+SENSITIVE = ["gen/deep.html", "gen/deep.rtf", "gen/deep.json"]  # outcome depends on interpreter-global settings (recursion limit)
 
 
 def gen_case(rng: random.Random, tier: str) -> dict:
@@ -92,6 +73,9 @@ def gen_case(rng: random.Random, tier: str) -> dict:
         nd = rng.choice([6, 10, 14]) if tier == "quick" else rng.choice([8, 14, 20])
         small = [n for n in _names if len(_docs[n]) < 400_000]
         names = rng.sample(small, min(nd, len(small)))
+        for sname in SENSITIVE:
+            if sname in _docs and sname not in names and rng.random() < 0.5:
+                names.insert(rng.randrange(len(names) + 1), sname)
         docs = []
         for n in names:
             d = {"name": n, "ops": []}
@@ -203,9 +187,12 @@ def _run_config(case):
             except Exception as e:  # the diff is diagnostics only
                 path = "diff-failed:" + type(e).__name__
             gp = canon.generic_path(path)
-            if path == "?":
-                gp = "second_extraction_in_same_process" if same_proc else "unlocated"
             small = dict(case, docs=[d], configs=[cfgs[i_a], cfgs[i_b]] if i_a != i_b else [cfgs[i_a]])
+            if path == "?" or path.startswith(("outcome:", "diff-failed")):
+                # not reproducible with this document alone: the result depends on what the process extracted before
+                gp = "depends_on_earlier_extractions_in_process"
+                tname = n.rsplit(".", 1)[-1]
+                small = dict(case, configs=[cfgs[i_a], cfgs[i_b]] if i_a != i_b else [cfgs[i_a]])
             viol.append({"class": "nondeterministic_result", "sig": f"{tname}|{gp}", "case": small,
                          "detail": f"{n} ops={d['ops']}: to_json differs between configurations {i_a} and {i_b} at {path}: {str(va)[:120]!r} vs {str(vb)[:120]!r}; digests={ds}"})
     return {"violations": viol, "digest": log.digest(), "steps": log.n, "evals": evals, "faults": {}, "probes": probes,
@@ -409,6 +396,12 @@ def shrink(case):
     if len(docs) > 1:
         for d in docs:
             yield dict(case, docs=[d])
+        half = len(docs) // 2
+        if half > 1:
+            yield dict(case, docs=docs[:half])
+            yield dict(case, docs=docs[half:])
+        for i in range(len(docs)):
+            yield dict(case, docs=docs[:i] + docs[i + 1:])
     for i, d in enumerate(docs):
         if d["ops"]:
             yield dict(case, docs=docs[:i] + [dict(d, ops=[])] + docs[i + 1:])
